@@ -238,8 +238,8 @@ func (x *sstr) String() string {
 type sevalCtx struct {
 	p      *core.Prog
 	input  *ssa.Parameter
-	esc    *ssa.Function    // ShellEscape (source function); nil while evaluating ShellEscape itself
-	choice map[*ssa.Phi]int // phi → chosen incoming edge
+	esc    *ssa.Function     // ShellEscape (source function); nil while evaluating ShellEscape itself
+	choice map[*ssa.Phi]int  // phi → chosen incoming edge
 	path   []*ssa.BasicBlock // the path being evaluated (loop-free functions), nil otherwise
 }
 
